@@ -81,6 +81,15 @@ CLAIMED = {
         "random nested programs run on a real client with every seam call observed",
         "object identities compared up to renaming; requests racing with a block entered by another task are outside the property",
     ),
+    "C19": (
+        "proof: listener = filterMap of a stateless per-datagram decision: matching v2c notification delivered exactly once with "
+        "source and exactly its bindings, foreign community / unknown version / malformed never delivered, compositional over "
+        "sequences (a bad datagram never affects later ones), deliveries = matching datagrams in order, pythonic TrapInfo view; "
+        "tied by datagram sequences injected through the real receiver protocol with the decoder installed by "
+        "register_trap_callback, plus a loopback listener",
+        "well-formedness of a datagram is decided by the independent BER reader (byte-level decoding is C06/C20's subject); "
+        "informs are delivered without acknowledgement (outside the property)",
+    ),
 }
 
 
